@@ -102,7 +102,18 @@ pub fn gen_pair(ch: &mut Chooser) -> Pair {
     let (mut ia, mut ib) = (0, 0);
     let mut schedule = vec![];
     // scripted openings: the situations in which per-thread or per-process state would be confused
-    match ch.below(12) {
+    match ch.below(13) {
+        12 => {
+            // a macro use in A that ends in an error while matching; B's next use of a macro of its own follows directly
+            b.splice(0..0, ["(define x 100)".to_string(), "(define-syntax plus-x (syntax-rules () ((plus-x v) (+ v x))))".to_string(), "(plus-x 1)".to_string(), "(plus-x 2)".to_string()]);
+            a.splice(0..0, ["(define-syntax pick (syntax-rules () ((pick x (... y)) x)))".to_string(), "(pick 7 (1 2))".to_string()]);
+            schedule.extend([false, false, true, true, false, false]);
+            ia = 2;
+            ib = 4;
+            labels.push("a-fails");
+            labels.push("a-defines-syntax");
+            labels.push("b-defines-syntax");
+        }
         10 => {
             // A binds a *variable* named like a bundled derived form; B keeps using the derived form
             let (def, use_) = *ch.pick(&[
@@ -111,6 +122,10 @@ pub fn gen_pair(ch: &mut Chooser) -> Pair {
                 ("(define (when a) a)", "(when #t 1 2)"),
                 ("(define let 1)", "(let ((q 1)) q)"),
                 ("(define (case . r) r)", "(case 2 ((1 2) 'low) (else 'high))"),
+                // a variable named like a literal of the bundled macros
+                ("(define else #f)", "(cond (#f 1) (else 2))"),
+                ("(define else #f)", "(case 7 ((1 2) 'low) (else 'high))"),
+                ("(define => 1)", "(cond (5 => list) (else 2))"),
             ]);
             a.splice(0..0, [def.to_string(), "(append '(1) '(2))".to_string()]);
             b.splice(0..0, [use_.to_string(), "(append '(1) '(2))".to_string()]);
